@@ -1,6 +1,11 @@
-# Texts for MANIFEST.json come from registry/Cxx.json ("manifest" key).
+# Texts for MANIFEST.json come from registry/Cxx.json ("manifest" key). Only properties listed in
+# registry/READY (accepted by the coordinator: theorem file + driver committed, check green on the
+# unchanged tree) are claimed; the rest stay under not_applicable until then.
+import os
 from props import PROPS
-PENDING = "check under construction; will be claimed once its theorem file and correspondence driver are committed"
-TEXT = {pid: p["manifest"] for pid, p in PROPS.items()}
+_ROOT = os.path.dirname(os.path.dirname(os.path.abspath(__file__)))
+READY = [l.strip() for l in open(os.path.join(_ROOT, "registry", "READY")) if l.strip()]
+PENDING = "check under construction; will be claimed once its theorem file and correspondence driver are committed and green"
+TEXT = {pid: p["manifest"] for pid, p in PROPS.items() if pid in READY}
 ALL = ["C%02d" % i for i in range(1, 21)]
 NOT_APPLICABLE = [{"property_id": p, "reason": PENDING} for p in ALL if p not in TEXT]
